@@ -571,6 +571,10 @@ Definition pool_destroy (v : vam) (uid : Z) : vam * out unit :=
     end
   end.
 
+(* undo of a failed CreatePool: the pool (if still linked) is dropped and nextPoolId is what it was *)
+Definition unlink_pool (v : vam) (uid nextId : Z) : vam :=
+  mkVam (v_m v) (v_global v) (v_lists v) (v_ded v) (remove_pool (v_pools v) uid) nextId (v_next_uid v) (v_tab v).
+
 (* CreatePool; on success the new pool's uid is the old [v_next_uid] *)
 Definition create_pool (v : vam) (ty flags blockSize minB maxB0 minAlign : Z) : vam * out unit :=
   let maxB := if maxB0 =? 0 then MAXINT else maxB0 in
@@ -584,23 +588,17 @@ Definition create_pool (v : vam) (ty flags blockSize minB maxB0 minAlign : Z) : 
     let al := if type_min_alignment ty <? minAlign then minAlign else type_min_alignment ty in
     let uid := v_next_uid v in
     let l := mkBlist ty bs minB maxB gr (negb (blockSize =? 0)) (Z.land flags 2) al [] 0 true in
-    (* the pool object exists but is not linked into a.pools yet; the model links it at once and
-       unlinks it again if creation fails (nothing observes the list in between) *)
-    let v0 := mkVam (v_m v) (v_global v) (v_lists v) (v_ded v) (mkPool uid 0 l [] :: v_pools v)
-                    (v_next_pool_id v) (uid + 1) (v_tab v) in
+    (* The pool object exists but is linked into a.pools and gets its id only after CreateMinBlocks succeeded.
+       The model links it and assigns the id at once and undoes both if creation fails: nothing observes
+       the pool list or the id in between, and the final states are the same. *)
+    let v0 := mkVam (v_m v) (v_global v) (v_lists v) (v_ded v) (mkPool uid (v_next_pool_id v) l [] :: v_pools v)
+                    (v_next_pool_id v + 1) (uid + 1) (v_tab v) in
     let '(v1, r) := create_min_blocks c (Z.to_nat minB) v0 (LPool uid) bs in
     match r with
-    | OK _ =>
-      match find_pool (v_pools v1) uid with
-      | Some p =>
-        (mkVam (v_m v1) (v_global v1) (v_lists v1) (v_ded v1)
-               (replace_pool (v_pools v1) (mkPool uid (v_next_pool_id v1) (p_list p) (p_ded p)))
-               (v_next_pool_id v1 + 1) (v_next_uid v1) (v_tab v1), OK tt)
-      | None => (v1, STUCK)
-      end
+    | OK _ => (v1, OK tt)
     | ER code =>
       let '(v2, dr) := pool_destroy v1 uid in
-      (match dr with OK _ => v2 | _ => set_pools v2 (remove_pool (v_pools v2) uid) end,
+      (unlink_pool v2 uid (v_next_pool_id v),
        match dr with PANIC => PANIC | STUCK => STUCK | _ => ER code end)
     | other => (v1, other)
     end.
